@@ -85,6 +85,7 @@ def eval_cases(cases, tag):
     return bad, flush
 
 
+HOOK_SHAPE_ERR = None
 HOOK_ANCHOR = "\n\treturn s.close()\n}"
 HOOK_CODE = "\n\tif vhookC11BeforeClose != nil {\n\t\tvhookC11BeforeClose(s)\n\t}\n\treturn s.close()\n}"
 
@@ -109,16 +110,22 @@ def instrument_stream():
 def run_harness(reps, seed, tag):
     outp = os.path.join(core.WORK, "c11_%s_%d.jsonl" % (tag, os.getpid()))
     ipath, ierr = instrument_stream()
+    global HOOK_SHAPE_ERR
+    HOOK_SHAPE_ERR = ierr
+    envv = {"VERIF_OUT": outp, "VERIF_N": str(reps), "VERIF_SEED": str(seed)}
     if ierr:
-        return [], "S: " + ierr, ""
-    try:
-        rc, out, secs = core.go_test(PROP, "^TestVerif_C11$", {"VERIF_OUT": outp, "VERIF_N": str(reps), "VERIF_SEED": str(seed)},
-                                     timeout=1500, extra_replace={os.path.join(core.REPO, "stream.go"): ipath})
-    finally:
+        # the anchor of the overlay hook was not recognised: run everything else without the hook
+        envv["VERIF_C11_NOHOOK"] = "1"
+        rc, out, secs = core.go_test(PROP, "^TestVerif_C11$", envv, timeout=1500)
+    else:
         try:
-            os.unlink(ipath)
-        except OSError:
-            pass
+            rc, out, secs = core.go_test(PROP, "^TestVerif_C11$", envv, timeout=1500,
+                                         extra_replace={os.path.join(core.REPO, "stream.go"): ipath})
+        finally:
+            try:
+                os.unlink(ipath)
+            except OSError:
+                pass
     cases = []
     if os.path.exists(outp):
         for l in open(outp):
@@ -168,6 +175,8 @@ def check(run):
     cases, err, out = run_harness(reps, run.seed, run.tier)
     if err:
         run.add_corr_break("T: " + err)
+    if HOOK_SHAPE_ERR:
+        run.add_corr_break("S: the scheduling hook could not be compiled into Stream.Close (%s): the scenario close-vs-callback-start was not run, everything else was" % HOOK_SHAPE_ERR, shape=True)
     usable, skipped = [], 0
     kinds, worst = {}, {}
     for c in cases:
